@@ -155,7 +155,7 @@ impl SwiftField for Field59F {
         let mut result = String::from(":59F:");
 
         if let Some(ref id) = self.party_identifier {
-            result.push_str(&format!("/{}\n", id));
+            result.push_str(&format!("/{}", id));
         }
 
         for (i, line) in self.name_and_address.iter().enumerate() {
